@@ -4,11 +4,17 @@
   PROVED (all inputs; generic in the digest / PRF object, then instantiated):
   * `hkdf_extract_generic`, `hkdf_expand_generic`: for ANY digest type `D` whose object model satisfies the
     digest-object contract (Proofs.MacObj.Contract for `digestFam D`), `hkdf_extract` = RFC 5869 §2.2 (and refuses a
-    PRK buffer whose length is not HashLen), `hkdf_expand` = RFC 5869 §2.3 for EVERY L ≤ 255·HashLen and refuses
-    (`none` = the `checked_add` panic of the one-byte counter) for EVERY L > 255·HashLen — equality of `Option`s, so
-    "never truncates or wraps" is part of the statement.  `HkdfCorrect M H B L ok` is the statement for one legacy
-    wrapper; it is proved for the 16 macro-generated wrappers (here spelled out for SHA-256, SHA-1, SHA-512;
-    `hkdf_legacy` gives the others from the same `…_ctx` facts used in Props/C08).
+    PRK buffer whose length is not HashLen), `hkdf_expand` = RFC 5869 §2.3 for EVERY PRK of at least HashLen octets and
+    EVERY L ≤ 255·HashLen, and refuses EVERY PRK shorter than HashLen (`none` = `assert!(prk.len() >=
+    digest.output_bytes())`; RFC 5869 §2.3 "PRK  a pseudorandom key of at least HashLen octets") and EVERY L > 255·HashLen
+    (`none` = the `checked_add` panic of the one-byte counter) — equality of `Option`s, so "never truncates or wraps" is
+    part of the statement (`hkdf_expand_limit`: the Spec has no value iff |PRK| < HashLen ∨ L > 255·HashLen).
+    `HkdfCorrect M H B L ok` is the statement for one legacy wrapper; it is proved for the 16 macro-generated wrappers
+    (here spelled out for SHA-256, SHA-1, SHA-512; `hkdf_legacy` gives the others from the same `…_ctx` facts used in
+    Props/C08).
+    WITNESS of the repaired defect (m) (`hkdf_expand` did not check the documented PRK length): `hkdf_expand_old_generic`
+    (the function before the assert computed T(1) ‖ T(2) ‖ … for EVERY PRK length) and the concrete
+    `hkdf_expand_old_accepts_short_prk` (the correspondence line `kdf.hkdf_expand sha256 0b 696e666f 33`).
   * `pbkdf2_generic`: for ANY MAC type `M` satisfying the object contract with PRF(P, ·), `pbkdf2` = RFC 8018 §5.2 for
     every salt, c, dkLen: `calculate_block` = U_1 ⊕ … ⊕ U_c by induction on c (Proofs.KdfPbkdf2.calculate_block_spec,
     the code's c = 1 / c = 2 / `for _ in 2..c` structure), partial last block, refusal exactly for c = 0 and
@@ -44,8 +50,9 @@ theorem hkdf_extract_generic {δ : Type} (D : DigestModel δ) (H : Fn) (B L bits
     hkdf_extract D d salt ikm prkLen = if prkLen = L then some (Spec.Kdf.hkdfExtract H B salt ikm) else none :=
   Cx.Proofs.KdfHkdf.hkdf_extract_spec D H B RelD FinD hD hLB d m0 hd salt ikm prkLen hk ⟨h1, h2⟩
 
-/-- **RFC 5869 §2.3**, generic in the digest object: the value for every L ≤ 255·HashLen, the refusal beyond
-    (both sides are `Option`s: `Spec.Kdf.hkdfExpand … = none ↔ L > 255·HashLen`) -/
+/-- **RFC 5869 §2.3**, generic in the digest object: the value for every PRK of at least HashLen octets and every
+    L ≤ 255·HashLen, the refusal of every shorter PRK and every larger L
+    (both sides are `Option`s: `Spec.Kdf.hkdfExpand … = none ↔ |PRK| < HashLen ∨ L > 255·HashLen`, `hkdf_expand_limit`) -/
 theorem hkdf_expand_generic {δ : Type} (D : DigestModel δ) (H : Fn) (B L bits : Nat) (okD : Fn → Bytes → Prop)
     (RelD : δ → Fn → Bytes → Prop) (FinD : δ → Fn → Prop)
     (hD : Contract (digestFam D) L [L, bits, B] (fun _ => none) okD RelD FinD) (hLB : L ≤ B) (hL : 0 < L)
@@ -56,11 +63,35 @@ theorem hkdf_expand_generic {δ : Type} (D : DigestModel δ) (H : Fn) (B L bits 
     hkdf_expand D d prk info okmLen = Spec.Kdf.hkdfExpand H B L prk info okmLen :=
   Cx.Proofs.KdfHkdf.hkdf_expand_spec D H B RelD FinD hD hLB hL d m0 hd prk info okmLen hk hok
 
-/-- the refusal clause, spelled out: beyond 255·HashLen the Spec (hence the model) has no value -/
+/-- the refusal clause, spelled out: for a PRK shorter than HashLen and beyond 255·HashLen — and only there — the Spec
+    (hence the model) has no value -/
 theorem hkdf_expand_limit (H : Fn) (B L : Nat) (prk info : Bytes) (okmLen : Nat) :
-    Spec.Kdf.hkdfExpand H B L prk info okmLen = none ↔ 255 * L < okmLen := by
+    Spec.Kdf.hkdfExpand H B L prk info okmLen = none ↔ (prk.length < L ∨ 255 * L < okmLen) := by
   simp only [Spec.Kdf.hkdfExpand, Spec.Kdf.hkdfExpandPrf]
-  split <;> simp <;> omega
+  split
+  · simp [*]
+  · split <;> simp <;> omega
+
+/-- the value clause, spelled out: inside the documented domain OKM = the first L octets of T(1) ‖ T(2) ‖ … -/
+theorem hkdf_expand_value (H : Fn) (B L : Nat) (prk info : Bytes) (okmLen : Nat) (hp : L ≤ prk.length)
+    (hl : okmLen ≤ 255 * L) :
+    Spec.Kdf.hkdfExpand H B L prk info okmLen = some (Spec.Kdf.hkdfOkm (Spec.Hmac.hmac H B) L prk info okmLen) := by
+  simp only [Spec.Kdf.hkdfExpand, Spec.Kdf.hkdfExpandPrf, Nat.not_lt.mpr hp, hl, if_false, if_true]
+
+/-- WITNESS of the repaired defect (m), generic: `hkdf_expand` as it was before `assert!(prk.len() >=
+    digest.output_bytes())` returned T(1) ‖ T(2) ‖ … (cut to L ≤ 255·HashLen octets) for EVERY PRK — also for the PRKs
+    shorter than HashLen that its documentation ("prk - The pseudorandom key of at least `digest.output_bytes()` octets")
+    and RFC 5869 §2.3 exclude -/
+theorem hkdf_expand_old_generic {δ : Type} (D : DigestModel δ) (H : Fn) (B L bits : Nat) (okD : Fn → Bytes → Prop)
+    (RelD : δ → Fn → Bytes → Prop) (FinD : δ → Fn → Prop)
+    (hD : Contract (digestFam D) L [L, bits, B] (fun _ => none) okD RelD FinD) (hLB : L ≤ B) (hL : 0 < L)
+    (d : δ) (m0 : Bytes) (hd : RelD d H m0 ∨ FinD d H) (prk info : Bytes) (okmLen : Nat)
+    (hk : prk.length ≤ B ∨ okD H prk)
+    (hok : ∀ x : Bytes, x.length ≤ L + info.length + 1 →
+      okD H (ikey H B prk ++ x) ∧ okD H (okey H B prk ++ H (ikey H B prk ++ x))) :
+    hkdf_expand_old D d prk info okmLen
+      = if okmLen ≤ 255 * L then some (Spec.Kdf.hkdfOkm (Spec.Hmac.hmac H B) L prk info okmLen) else none :=
+  Cx.Proofs.KdfHkdf.hkdf_expand_old_spec D H B RelD FinD hD hLB hL d m0 hd prk info okmLen hk hok
 
 /-- HKDF for one legacy wrapper `X` (calls `hkdf_extract(X::new(), …)` / `hkdf_expand(X::new(), …)`) -/
 def HkdfCorrect {γ : Type} (M : CtxModel γ) (H : Fn) (B L : Nat) (ok : Bytes → Prop) : Prop :=
@@ -101,6 +132,50 @@ theorem hkdf_sha3_256 : HkdfCorrect sha3_256Ctx Spec.Keccak.sha3_256 136 32 (fun
   hkdf_legacy _ _ _ _ sha3_256_ctx 136 32 (by decide) (by decide) (by decide) (by decide)
 theorem hkdf_ripemd160 : HkdfCorrect ripemd160Ctx Spec.Ripemd160.ripemd160 64 20 Cx.Props.C02.Sha1Ripemd.ok :=
   hkdf_legacy _ _ _ _ ripemd160_ctx 64 20 (by decide) (by decide) (by decide) (by decide)
+
+/-- WITNESS of the repaired defect (m), concrete (the line `kdf.hkdf_expand sha256 0b 696e666f 33` of the correspondence):
+    for the ONE-byte PRK `0b` — the documentation demands at least 32 — the function before the repair returned 33 bytes
+    of output keying material (T(1) ‖ T(2) cut to 33 octets, keyed with the short PRK); the repaired function and the Spec
+    refuse it. -/
+theorem hkdf_expand_old_accepts_short_prk :
+    ([0x0b] : Bytes).length < 32 ∧
+    hkdf_expand_old (legacyDigest sha256Ctx) (Legacy.new sha256Ctx) [0x0b] [0x69, 0x6e, 0x66, 0x6f] 33
+      = some (Spec.Kdf.hkdfOkm (Spec.Hmac.hmac Spec.Sha2.sha256 64) 32 [0x0b] [0x69, 0x6e, 0x66, 0x6f] 33) ∧
+    (Spec.Kdf.hkdfOkm (Spec.Hmac.hmac Spec.Sha2.sha256 64) 32 [0x0b] [0x69, 0x6e, 0x66, 0x6f] 33).length = 33 ∧
+    hkdf_expand (legacyDigest sha256Ctx) (Legacy.new sha256Ctx) [0x0b] [0x69, 0x6e, 0x66, 0x6f] 33 = none ∧
+    Spec.Kdf.hkdfExpand Spec.Sha2.sha256 64 32 [0x0b] [0x69, 0x6e, 0x66, 0x6f] 33 = none := by
+  have hD := legacy_contract sha256Ctx Spec.Sha2.sha256 _ sha256_ctx
+  rw [show sizesOf sha256Ctx = [32, sha256Ctx.OUTPUT_BITS, 64] by decide, show outBytes sha256Ctx = 32 by decide] at hD
+  have hok : ∀ x : Bytes, x.length ≤ 32 + ([0x69, 0x6e, 0x66, 0x6f] : Bytes).length + 1 →
+      ok256 (ikey Spec.Sha2.sha256 64 [0x0b] ++ x) ∧
+        ok256 (okey Spec.Sha2.sha256 64 [0x0b] ++ Spec.Sha2.sha256 (ikey Spec.Sha2.sha256 64 [0x0b] ++ x)) := by
+    intro x hx
+    simp only [List.length_cons, List.length_nil] at hx
+    constructor
+    · show (ikey Spec.Sha2.sha256 64 [0x0b] ++ x).length < 2 ^ 61
+      simp [ikey, Spec.Hmac.xorPad, Spec.Hmac.keyBlock, zeros]; omega
+    · show (okey Spec.Sha2.sha256 64 [0x0b] ++ Spec.Sha2.sha256 _).length < 2 ^ 61
+      rw [List.length_append, sha256_length]
+      simp [okey, Spec.Hmac.xorPad, Spec.Hmac.keyBlock, zeros]
+  have hold := hkdf_expand_old_generic (legacyDigest sha256Ctx) Spec.Sha2.sha256 64 32 sha256Ctx.OUTPUT_BITS
+    (fun _ m => ok256 m) (RelL Spec.Sha2.sha256 _) (FinL Spec.Sha2.sha256 _) hD (by decide) (by decide)
+    (Legacy.new sha256Ctx) [] (Or.inl (legacy_new sha256Ctx Spec.Sha2.sha256 _ sha256_ctx)) [0x0b] [0x69, 0x6e, 0x66, 0x6f] 33
+    (Or.inl (by decide)) hok
+  refine ⟨by decide, ?_, ?_, ?_, ?_⟩
+  · rw [hold]; rfl
+  · have hT : ∀ x ∈ Spec.Kdf.hkdfTs (Spec.Hmac.hmac Spec.Sha2.sha256 64 [0x0b]) [0x69, 0x6e, 0x66, 0x6f]
+        (Spec.Kdf.ceilDiv 33 32) 1 [], x.length = 32 := by
+      rw [show Spec.Kdf.ceilDiv 33 32 = 2 by decide]
+      intro x hx
+      simp only [Spec.Kdf.hkdfTs, List.mem_cons, List.not_mem_nil, or_false] at hx
+      rcases hx with rfl | rfl <;> exact sha256_length _
+    simp only [Spec.Kdf.hkdfOkm, List.length_take, List.length_flatten]
+    rw [List.map_congr_left hT]
+    rw [show Spec.Kdf.ceilDiv 33 32 = 2 by decide]
+    simp [Spec.Kdf.hkdfTs]
+  · rw [hkdf_sha256.2 [0x0b] [0x69, 0x6e, 0x66, 0x6f] 33 (Or.inl (by decide)) hok, hkdf_expand_limit]
+    exact Or.inl (by decide)
+  · rw [hkdf_expand_limit]; exact Or.inl (by decide)
 
 /-! ## PBKDF2 -/
 
